@@ -39,7 +39,11 @@ def gen_case(rng, k):
     if rng.random() < 0.5:
         # the injector returns a value of a basic kind (built last, from everything): its zero value is a literal of its own
         under, zero, val = rng.choice([("bool", "false", "true"), ("int", "0", "7"), ("string", '""', '"s"'), ("float64", "0", "1.5"),
-                                       ("uint8", "0", "3"), ("complex128", "0", "2i"), ("rune", "0", "'x'")])
+                                       ("uint8", "0", "3"), ("complex128", "0", "2i"), ("rune", "0", "'x'"),
+                                       # kinds whose zero value is nil: an empty composite literal is not it
+                                       ("map[string]int", "nil", "map[string]int{\"a\": 1}"), ("[]int", "nil", "[]int{1}"),
+                                       ("chan int", "nil", "make(chan int)"), ("func() int", "nil", "func() int { return 1 }"),
+                                       ("*int", "nil", "new(int)"), ("interface{ M() }", "nil", "nil")])
         provs.append({"name": "Res", "hook": False, "basic": (under, zero, val), "deps": list(range(n)), "cleanup": False, "err": True})
         result = "Res"
     params = []
@@ -69,7 +73,9 @@ def materialise(ws, case):
         val = ("%s(func() { logf(\"hook %d called\") })" % (p["name"], i)) if p["hook"] else "%s{N: %d}" % (p["name"], i)
         zero = "nil" if p["hook"] else p["name"] + "{}"
         if p.get("basic"):
-            val, zero = "%s(%s)" % (p["name"], p["basic"][2]), "%s(%s)" % (p["name"], p["basic"][2])   # a failing provider may return anything
+            val = zero = "%s(%s)" % (p["name"], p["basic"][2])   # a failing provider may return anything
+            if p["basic"][0].startswith("interface"):
+                val = zero = "%s(&resImpl{})" % p["name"]
         L.append("func Provide%d(%s) %s {" % (i, args, rs))
         if p["err"]:
             fail = [zero] + (['func() { logf("own cleanup of failed %d called") }' % i] if p["cleanup"] else []) + ["ErrBoom"]
@@ -77,6 +83,8 @@ def materialise(ws, case):
         L.append('\tlogf("acquire %d")' % i)
         ok = [val] + (['func() { logf("release %d") }' % i] if p["cleanup"] else []) + (["nil"] if p["err"] else [])
         L.append("\treturn %s\n}\n" % ", ".join(ok))
+    if any(p.get("basic") and p["basic"][0].startswith("interface") for p in case["provs"]):
+        L.append("type resImpl struct{}\n\nfunc (*resImpl) M() {}\n")
     fields = "\n".join("\tF%d %s" % (i, p["name"]) for i, p in enumerate(case["provs"]) if not p.get("basic"))
     L.append("type App struct {\n%s\n}\n" % fields)
     for nm in case["decls"]:
@@ -150,7 +158,8 @@ def run_c04(rep, tier, which="C04"):
             for fa in ([-1] if which == "C04" else fallible):
                 L.append("\t{\n\t\t%s.Log, %s.FailAt = nil, %d\n\t\tapp, cl, err := %s.Init(%s)" % (p, p, fa, p, args))
                 L.append('\t\tshow("%s %d init", %s.Log)' % (p, fa, p))
-                nz = "app != nil" if not c.get("result") else "app != %s.Res(%s)" % (p, [x for x in c["provs"] if x.get("basic")][0]["basic"][1])
+                zlit = [x for x in c["provs"] if x.get("basic")][0]["basic"][1] if c.get("result") else "nil"
+                nz = "app != nil" if zlit == "nil" else "app != %s.Res(%s)" % (p, zlit)
                 L.append('\t\tfmt.Printf("%s %d result|%%v|%%v|%%v\\n", %s, cl != nil, err == %s.ErrBoom)' % (p, fa, nz, p))
                 L.append("\t\t%s.Log = nil\n\t\tif cl != nil {\n\t\t\tcl()\n\t\t}" % p)
                 L.append('\t\tshow("%s %d cleanup", %s.Log)\n\t}' % (p, fa, p))
